@@ -4,6 +4,8 @@ import Abyss.Lemmas.AllocBytes
 import Abyss.Lemmas.PieceBytesVal
 import Abyss.Lemmas.PieceBytesKey
 import Abyss.Props.GenCorollaries2
+import Abyss.Props.GenBudget
+#print axioms Abyss.C06_generated_file_length_bounded_budget
 #print axioms Abyss.C06_generated_file_length_bounded
 #print axioms Abyss.C06_generated_slots_bounded
 #print axioms Abyss.C06_partition
